@@ -108,6 +108,12 @@ namespace RecInt
         mpz_to_ruint(*this, m);
     }
 
+    // the one-limb specialisation declares this constructor too (ruruint.h)
+    inline ruint<__RECINT_LIMB_SIZE>::ruint(const char* b) {
+        mpz_class m(b);
+        mpz_to_ruint(*this, m);
+    }
+
 }
 
 #endif
